@@ -248,7 +248,7 @@ func main() {
 // and runs out of passes in others (serial frame loop, adjustQuantForTarget).
 func rateControlCases(c *Ctx) {
 	rng := c.Rng.Fork()
-	pics := 4
+	pics := 5
 	if c.Thorough() {
 		pics = 30
 	}
@@ -270,7 +270,11 @@ func rateControlCases(c *Ctx) {
 		psnrs := []float32{28, 34, 38, 42}
 		k := 0
 		for _, ps := range passes {
-			for ti := 0; ti < 3; ti++ {
+			nt := 3
+			if ps >= 4 {
+				nt = 5
+			}
+			for ti := 0; ti < nt; ti++ {
 				o := *o0
 				o.Pass = ps
 				o.Segments = 1 + r.Intn(4)
